@@ -23,7 +23,8 @@ RULE = ("The check process runs with NUMBA_BOUNDSCHECK=1 (verified effective at 
         "poison patterns, njit functions on fresh copies of the inputs - and the two results must be identical (hence every output element is "
         "written and nothing depends on stale memory); inputs are unchanged. Non-trivial: a boundary-sized case (length <= 4, window in "
         "{1, n}, <= 1 valid cell, single group/zone, srange of 2); distinct by content hash. Negative indices wrap before Numba's check, so "
-        "reads at index -1 are not detected here (value errors: C01/C17).")
+        "reads at index -1 are not detected here (value errors: C01/C17). "
+        " Added after the fourth seeded round: Every gufunc gets a third run with strided input views and strided out= rows inside guard buffers (guards intact, result equal); boundary inputs include constant, linear and two-level data.")
 ASSUME = ["NUMBA_BOUNDSCHECK=1 makes every out-of-range (non-negative) index of nopython code raise IndexError",
           "negative-index wraparound is outside what this check can see (stated limit)"]
 
